@@ -36,9 +36,9 @@ from xsdata.formats.dataclass.parsers.config import ParserConfig  # noqa: E402
 from xsdata.formats.dataclass.serializers import XmlSerializer  # noqa: E402
 from xsdata.formats.dataclass.serializers.config import SerializerConfig  # noqa: E402
 
-# mixed content is outside the generated domain: three unrelated defects were found in it on the unchanged tree within the first
-# thousand schemas (known_findings.json: mixed-*) and every further campaign ended in one of them
-OPTS = S.Opts()
+# mixed content is outside the generated domain: four unrelated defects were found in it on the unchanged tree (known_findings.json:
+# mixed-*) and every longer campaign ended in one of them
+OPTS = S.Opts(components=True, mixed=False)
 STYLES = ["filenames", "namespaces", "clusters", "single-package", "namespace-clusters"]
 DOCSTYLES = ["reStructuredText", "NumPy", "Google", "Accessible", "Blank"]
 
@@ -59,6 +59,7 @@ def cases(draw):
         root = S.InstanceGen(draw, spec).document()
         docs.append(etree.tostring(root, encoding="unicode"))
     shape = {"compound_fields.enabled": draw(st.integers(0, 3)) != 0, "wrapper_fields": False}
+    cfg_a, cfg_b = draw(output_only()), draw(output_only())
     # wrapper_fields stays off: three unrelated defects on the unchanged tree (known_findings.json: wrapper-*)
     if spec.get("flags", {}).get("nillables-in-one-choice"):
         # None in a compound field names no element: with two nillable alternatives the first one is written (recorded finding)
@@ -66,9 +67,16 @@ def cases(draw):
     if spec.get("flags", {}).get("default-in-group"):
         # an empty element with a default / fixed value that lands in a compound field is bound as '' (recorded findings)
         shape["compound_fields.enabled"] = False
+    if shape["compound_fields.enabled"]:
+        names = [e["name"] for t in S.all_types(spec) if t["k"] == "complex" for e in S.local_elements(t)] + \
+                [e["name"] for g in spec.get("groups", {}).values() for e in g["items"]]
+        if len(set(names)) != len(names):
+            # the helper classes that disambiguate same-typed choices are named after the element; unnested, two of them from
+            # different types share one name (recorded finding unnest-disambiguation-classes-share-a-name)
+            cfg_a["unnest_classes"] = cfg_b["unnest_classes"] = False
     if "mixed" in S.features(spec):
         shape["compound_fields.enabled"] = False     # mixed content next to compound fields: recorded finding (known_findings.json)
-    return {"spec": spec, "docs": docs, "shape": shape, "cfg_a": draw(output_only()), "cfg_b": draw(output_only())}
+    return {"spec": spec, "docs": docs, "shape": shape, "cfg_a": cfg_a, "cfg_b": cfg_b}
 
 
 def order_preserving(spec, compound):
@@ -78,6 +86,9 @@ def order_preserving(spec, compound):
 
     def walk(p, top=True):
         nonlocal ok
+        if p["k"] == "element" and "ref" in p and p.get("max", 1) != 1 and S.substitutes(spec, p["ref"]):
+            ok = False          # a repeating head of a substitution group is a repeating choice of its members
+        p = S.expand(spec, p)
         if p["k"] == "element":
             t = p["type"].get("anon")
             if t and t["k"] == "complex":
